@@ -1,5 +1,5 @@
 use crate::ast::{BinaryOp, Expr, PostfixOp, RecordEntry, RecordKey, SpannedExpr, UnaryOp};
-use crate::precedence::{Assoc, operator_info};
+use crate::precedence::{Assoc, binding_level, operator_info};
 use crate::values::{LambdaArg, SerializableValue};
 use indexmap::IndexMap;
 
@@ -40,7 +40,13 @@ pub fn format_record_key(key: &str) -> String {
     if is_valid_identifier(key) {
         key.to_string()
     } else {
-        format!("\"{}\"", key.replace('\\', "\\\\").replace('"', "\\\""))
+        let literal = string_to_source(key);
+        if literal.starts_with('(') {
+            // Needs a concatenation: write it as a computed key
+            format!("[{}]", literal)
+        } else {
+            literal
+        }
     }
 }
 
@@ -53,7 +59,7 @@ pub fn expr_to_source(spanned_expr: &SpannedExpr) -> String {
                 n.to_string()
             }
         }
-        Expr::String(s) => format!("\"{}\"", s.replace("\\", "\\\\").replace("\"", "\\\"")),
+        Expr::String(s) => string_to_source(s),
         Expr::Bool(b) => b.to_string(),
         Expr::Null => "null".to_string(),
         Expr::Identifier(name) => name.clone(),
@@ -72,7 +78,9 @@ pub fn expr_to_source(spanned_expr: &SpannedExpr) -> String {
         }
         Expr::Lambda { args, body } => {
             let args_str: Vec<String> = args.iter().map(lambda_arg_to_source).collect();
-            format!("({}) => {}", args_str.join(", "), expr_to_source(body))
+            let body_str =
+                parenthesize_if(lambda_body_needs_parens(body), expr_to_source(body));
+            format!("({}) => {}", args_str.join(", "), body_str)
         }
         Expr::Conditional {
             condition,
@@ -115,17 +123,25 @@ pub fn expr_to_source(spanned_expr: &SpannedExpr) -> String {
         Expr::Output { expr } => format!("output {}", expr_to_source(expr)),
         Expr::Call { func, args } => {
             let args_str: Vec<String> = args.iter().map(expr_to_source).collect();
-            let func_str = match &func.node {
-                // Wrap lambdas in parentheses when used in call position
-                Expr::Lambda { .. } => format!("({})", expr_to_source(func)),
-                _ => expr_to_source(func),
-            };
+            // Wrap lambdas (and anything else that binds less tightly than a call) in
+            // parentheses when used in call position
+            let func_str = parenthesize_if(needs_parens_as_callee(func), expr_to_source(func));
             format!("{}({})", func_str, args_str.join(", "))
         }
         Expr::Access { expr, index } => {
-            format!("{}[{}]", expr_to_source(expr), expr_to_source(index))
+            let expr_str = parenthesize_if(
+                needs_parens_as_operand(expr, LEVEL_ACCESS, None),
+                expr_to_source(expr),
+            );
+            format!("{}[{}]", expr_str, expr_to_source(index))
         }
-        Expr::DotAccess { expr, field } => format!("{}.{}", expr_to_source(expr), field),
+        Expr::DotAccess { expr, field } => {
+            let expr_str = parenthesize_if(
+                needs_parens_as_operand(expr, LEVEL_ACCESS, None),
+                expr_to_source(expr),
+            );
+            format!("{}.{}", expr_str, field)
+        }
         Expr::BinaryOp { op, left, right } => {
             let op_str = binary_op_to_source(op);
             let left_str = if needs_parens_in_binop(op, left, true) {
@@ -142,11 +158,19 @@ pub fn expr_to_source(spanned_expr: &SpannedExpr) -> String {
         }
         Expr::UnaryOp { op, expr } => {
             let op_str = unary_op_to_source(op);
-            format!("{}{}", op_str, expr_to_source(expr))
+            let expr_str = parenthesize_if(
+                needs_parens_as_operand(expr, LEVEL_PREFIX, None),
+                expr_to_source(expr),
+            );
+            format!("{}{}", op_str, expr_str)
         }
         Expr::PostfixOp { op, expr } => {
             let op_str = postfix_op_to_source(op);
-            format!("{}{}", expr_to_source(expr), op_str)
+            let expr_str = parenthesize_if(
+                needs_parens_as_operand(expr, LEVEL_FACTORIAL, None),
+                expr_to_source(expr),
+            );
+            format!("{}{}", expr_str, op_str)
         }
         Expr::Spread(expr) => format!("...{}", expr_to_source(expr)),
     }
@@ -210,43 +234,158 @@ fn binary_op_to_source(op: &BinaryOp) -> &'static str {
     }
 }
 
+// Binding strength of an expression used as an operand, mirroring the parser: binary
+// operators by their Pratt group, then prefix operators, postfix `!`, call / index / field
+// access, and finally atoms. Lambdas, conditionals and assignments extend as far to the right
+// as they can, so as operands they always need parentheses.
+const LEVEL_OPEN_ENDED: u8 = 0;
+const LEVEL_PREFIX: u8 = 100;
+const LEVEL_FACTORIAL: u8 = 101;
+const LEVEL_ACCESS: u8 = 102;
+const LEVEL_ATOM: u8 = 103;
+
+fn expr_level(expr: &SpannedExpr, scope: Option<&IndexMap<String, SerializableValue>>) -> u8 {
+    match &expr.node {
+        Expr::BinaryOp { op, .. } => binding_level(op),
+        Expr::UnaryOp { .. } => LEVEL_PREFIX,
+        Expr::PostfixOp { .. } => LEVEL_FACTORIAL,
+        Expr::Call { .. } | Expr::Access { .. } | Expr::DotAccess { .. } => LEVEL_ACCESS,
+        Expr::Lambda { .. }
+        | Expr::Conditional { .. }
+        | Expr::Assignment { .. }
+        | Expr::Output { .. }
+        | Expr::Spread(_) => LEVEL_OPEN_ENDED,
+        // A negative number is printed with a leading minus sign
+        Expr::Number(n) if n.is_sign_negative() => LEVEL_PREFIX,
+        // An identifier that will be replaced by an inlined value
+        Expr::Identifier(name) => match scope.and_then(|scope| scope.get(name)) {
+            Some(SerializableValue::Number(n)) if n.is_sign_negative() && !n.is_nan() => {
+                LEVEL_PREFIX
+            }
+            _ => LEVEL_ATOM,
+        },
+        _ => LEVEL_ATOM,
+    }
+}
+
+/// Check if an operand of a prefix operator, of postfix `!`, or the target of a call, index
+/// or field access needs parentheses.
+fn needs_parens_as_operand(
+    child_expr: &SpannedExpr,
+    parent_level: u8,
+    scope: Option<&IndexMap<String, SerializableValue>>,
+) -> bool {
+    expr_level(child_expr, scope) < parent_level
+}
+
+/// Check if a call target needs parentheses (used by the multi-line formatter as well)
+pub fn needs_parens_as_callee(func: &SpannedExpr) -> bool {
+    needs_parens_as_operand(func, LEVEL_ACCESS, None)
+}
+
+/// `via`, `into` and `where` cannot appear in the unparenthesised operator chain of a lambda
+/// body, so such a body has to be wrapped in parentheses.
+pub fn lambda_body_needs_parens(body: &SpannedExpr) -> bool {
+    match &body.node {
+        Expr::BinaryOp { op, left, right } => {
+            matches!(op, BinaryOp::Via | BinaryOp::Into | BinaryOp::Where)
+                || lambda_body_needs_parens(left)
+                || lambda_body_needs_parens(right)
+        }
+        Expr::UnaryOp { expr, .. } | Expr::PostfixOp { expr, .. } => lambda_body_needs_parens(expr),
+        Expr::Call { func: expr, .. }
+        | Expr::Access { expr, .. }
+        | Expr::DotAccess { expr, .. } => lambda_body_needs_parens(expr),
+        _ => false,
+    }
+}
+
 /// Check if a child expression needs parentheses when used in a binary operation
 pub fn needs_parens_in_binop(
     parent_op: &BinaryOp,
     child_expr: &SpannedExpr,
     is_left: bool,
 ) -> bool {
-    match &child_expr.node {
-        Expr::BinaryOp { op: child_op, .. } => {
-            let (parent_prec, parent_assoc) = operator_info(parent_op);
-            let (child_prec, _child_assoc) = operator_info(child_op);
+    needs_parens_in_binop_with_scope(parent_op, child_expr, is_left, None)
+}
 
-            // Need parentheses if child has lower precedence
-            if child_prec < parent_prec {
-                return true;
-            }
+fn needs_parens_in_binop_with_scope(
+    parent_op: &BinaryOp,
+    child_expr: &SpannedExpr,
+    is_left: bool,
+    scope: Option<&IndexMap<String, SerializableValue>>,
+) -> bool {
+    let parent_level = binding_level(parent_op);
+    let child_level = expr_level(child_expr, scope);
 
-            // For same precedence, need parentheses on right side for:
-            // - Right-associative operators (e.g., power)
-            // - Non-associative operators (subtraction, division)
-            if child_prec == parent_prec && !is_left {
-                match parent_assoc {
-                    Assoc::Right => return true,
-                    Assoc::Left => {
-                        // For left-associative operators, right side needs parens for non-associative ones
-                        if matches!(
-                            parent_op,
-                            BinaryOp::Subtract | BinaryOp::Divide | BinaryOp::Modulo
-                        ) {
-                            return true;
-                        }
-                    }
-                }
-            }
+    if child_level == LEVEL_OPEN_ENDED {
+        // A lambda, conditional or assignment swallows everything to its right: as the right
+        // operand it can stand bare (`xs via x => x + 1`), as the left operand it cannot.
+        return is_left;
+    }
 
-            false
+    if is_left && is_open_ended_on_the_right(child_expr) {
+        // e.g. `(a * x => x) + 1`: the `+ 1` would otherwise become part of the lambda body
+        return true;
+    }
+
+    if child_level != parent_level {
+        return child_level < parent_level;
+    }
+
+    // Same level: the parser groups towards the associativity side, so the operand on the
+    // other side needs parentheses to keep its own grouping.
+    let (_, parent_assoc) = operator_info(parent_op);
+    match parent_assoc {
+        Assoc::Left => !is_left,
+        Assoc::Right => is_left,
+    }
+}
+
+/// Does the printed form of this expression end in a bare lambda, conditional or assignment
+/// (which would absorb any operator written after it)?
+fn is_open_ended_on_the_right(expr: &SpannedExpr) -> bool {
+    match &expr.node {
+        Expr::Lambda { .. }
+        | Expr::Conditional { .. }
+        | Expr::Assignment { .. }
+        | Expr::Output { .. } => true,
+        Expr::BinaryOp { op, right, .. } => {
+            !needs_parens_in_binop(op, right, false) && is_open_ended_on_the_right(right)
         }
         _ => false,
+    }
+}
+
+fn parenthesize_if(needed: bool, source: String) -> String {
+    if needed { format!("({})", source) } else { source }
+}
+
+/// Write a string literal. The grammar has no escape sequences, so the delimiter is chosen
+/// to be a quote character the text does not contain.
+pub fn string_to_source(s: &str) -> String {
+    if !s.contains('"') {
+        format!("\"{}\"", s)
+    } else if !s.contains('\'') {
+        format!("'{}'", s)
+    } else {
+        // Both kinds of quote: only expressible as a concatenation of literals
+        let mut parts: Vec<String> = Vec::new();
+        let mut current = String::new();
+        let mut current_is_double_quotes = false;
+        for c in s.chars() {
+            let is_double_quote = c == '"';
+            if !current.is_empty() && is_double_quote != current_is_double_quotes {
+                parts.push(string_to_source(&current));
+                current.clear();
+            }
+            current_is_double_quotes = is_double_quote;
+            current.push(c);
+        }
+        if !current.is_empty() {
+            parts.push(string_to_source(&current));
+        }
+        format!("({})", parts.join(" + "))
     }
 }
 
@@ -287,7 +426,7 @@ pub fn expr_to_source_with_scope(
                 n.to_string()
             }
         }
-        Expr::String(s) => format!("\"{}\"", s.replace("\\", "\\\\").replace("\"", "\\\"")),
+        Expr::String(s) => string_to_source(s),
         Expr::Bool(b) => b.to_string(),
         Expr::Null => "null".to_string(),
         Expr::BuiltIn(built_in) => built_in.name().to_string(),
@@ -313,11 +452,11 @@ pub fn expr_to_source_with_scope(
             for arg in args {
                 filtered_scope.shift_remove(arg.get_name());
             }
-            format!(
-                "({}) => {}",
-                args_str.join(", "),
-                expr_to_source_with_scope(body, &filtered_scope)
-            )
+            let body_str = parenthesize_if(
+                lambda_body_needs_parens(body),
+                expr_to_source_with_scope(body, &filtered_scope),
+            );
+            format!("({}) => {}", args_str.join(", "), body_str)
         }
         Expr::Conditional {
             condition,
@@ -362,16 +501,14 @@ pub fn expr_to_source_with_scope(
         }
         Expr::BinaryOp { op, left, right } => {
             let op_str = binary_op_to_source(op);
-            let left_str = if needs_parens_in_binop(op, left, true) {
-                format!("({})", expr_to_source_with_scope(left, scope))
-            } else {
-                expr_to_source_with_scope(left, scope)
-            };
-            let right_str = if needs_parens_in_binop(op, right, false) {
-                format!("({})", expr_to_source_with_scope(right, scope))
-            } else {
-                expr_to_source_with_scope(right, scope)
-            };
+            let left_str = parenthesize_if(
+                needs_parens_in_binop_with_scope(op, left, true, Some(scope)),
+                expr_to_source_with_scope(left, scope),
+            );
+            let right_str = parenthesize_if(
+                needs_parens_in_binop_with_scope(op, right, false, Some(scope)),
+                expr_to_source_with_scope(right, scope),
+            );
             format!("{} {} {}", left_str, op_str, right_str)
         }
         Expr::UnaryOp { op, expr } => {
@@ -380,11 +517,19 @@ pub fn expr_to_source_with_scope(
                 UnaryOp::Not => "!",
                 UnaryOp::Invert => "~",
             };
-            format!("{}{}", op_str, expr_to_source_with_scope(expr, scope))
+            let expr_str = parenthesize_if(
+                needs_parens_as_operand(expr, LEVEL_PREFIX, Some(scope)),
+                expr_to_source_with_scope(expr, scope),
+            );
+            format!("{}{}", op_str, expr_str)
         }
         Expr::PostfixOp { op, expr } => {
             let op_str = postfix_op_to_source(op);
-            format!("{}{}", expr_to_source_with_scope(expr, scope), op_str)
+            let expr_str = parenthesize_if(
+                needs_parens_as_operand(expr, LEVEL_FACTORIAL, Some(scope)),
+                expr_to_source_with_scope(expr, scope),
+            );
+            format!("{}{}", expr_str, op_str)
         }
         Expr::Spread(expr) => format!("...{}", expr_to_source_with_scope(expr, scope)),
         Expr::Assignment { ident, value } => {
@@ -398,24 +543,27 @@ pub fn expr_to_source_with_scope(
                 .iter()
                 .map(|e| expr_to_source_with_scope(e, scope))
                 .collect();
-            let func_str = match &func.node {
-                // Wrap lambdas in parentheses when used in call position
-                Expr::Lambda { .. } => {
-                    format!("({})", expr_to_source_with_scope(func, scope))
-                }
-                _ => expr_to_source_with_scope(func, scope),
-            };
+            // Wrap lambdas (and anything else that binds less tightly than a call) in
+            // parentheses when used in call position
+            let func_str = parenthesize_if(
+                needs_parens_as_operand(func, LEVEL_ACCESS, Some(scope)),
+                expr_to_source_with_scope(func, scope),
+            );
             format!("{}({})", func_str, args_str.join(", "))
         }
         Expr::Access { expr, index } => {
-            format!(
-                "{}[{}]",
+            let expr_str = parenthesize_if(
+                needs_parens_as_operand(expr, LEVEL_ACCESS, Some(scope)),
                 expr_to_source_with_scope(expr, scope),
-                expr_to_source_with_scope(index, scope)
-            )
+            );
+            format!("{}[{}]", expr_str, expr_to_source_with_scope(index, scope))
         }
         Expr::DotAccess { expr, field } => {
-            format!("{}.{}", expr_to_source_with_scope(expr, scope), field)
+            let expr_str = parenthesize_if(
+                needs_parens_as_operand(expr, LEVEL_ACCESS, Some(scope)),
+                expr_to_source_with_scope(expr, scope),
+            );
+            format!("{}.{}", expr_str, field)
         }
     }
 }
@@ -464,9 +612,7 @@ fn serializable_value_to_source(value: &SerializableValue) -> String {
         }
         SerializableValue::Bool(b) => b.to_string(),
         SerializableValue::Null => "null".to_string(),
-        SerializableValue::String(s) => {
-            format!("\"{}\"", s.replace("\\", "\\\\").replace("\"", "\\\""))
-        }
+        SerializableValue::String(s) => string_to_source(s),
         SerializableValue::List(items) => {
             let items_str: Vec<String> = items.iter().map(serializable_value_to_source).collect();
             format!("[{}]", items_str.join(", "))
